@@ -426,6 +426,11 @@ func TestC20Queries(t *testing.T) {
 			RunSigMsg(v, &sigtypes.MsgPublishReferencePayloadLink{Creator: g.owner.String(), Key: sha256hex(strings.Repeat("ab", 32)), Value: "l"})
 			RunSigMsg(v, &sigtypes.MsgStoreSignature{Creator: g.owner.String(), StorageKey: sha256hex(g.owner.String() + ":" + strings.Repeat("ab", 32)),
 				SignatureJSON: `{"signature":"AAAA","algorithm":"ecdsaWithSha256","certificate":"-----BEGIN CERTIFICATE-----\nAAAA\n-----END CERTIFICATE-----"}`})
+			// keys are free-form strings: a payload link published under what is the storage key of a signature that
+			// nobody stored, and a signature stored under what is the key of a payload link
+			RunSigMsg(v, &sigtypes.MsgPublishReferencePayloadLink{Creator: g.owner.String(), Key: sha256hex(g.owner.String() + ":" + strings.Repeat("zz", 32)), Value: "l2"})
+			RunSigMsg(v, &sigtypes.MsgStoreSignature{Creator: g.owner.String(), StorageKey: sha256hex(strings.Repeat("zz", 32)),
+				SignatureJSON: `{"signature":"AAAA","algorithm":"ecdsaWithSha256","certificate":"-----BEGIN CERTIFICATE-----\nAAAA\n-----END CERTIFICATE-----"}`})
 		}
 		app := v.App
 		ctx := sdk.WrapSDKContext(v.Ctx)
@@ -437,6 +442,11 @@ func TestC20Queries(t *testing.T) {
 		name := ""
 		var pan interface{}
 		q := rapid.IntRange(0, 17).Draw(t, "query")
+		if q >= 11 && rapid.Bool().Draw(t, "storedKeys") {
+			// half of the signature queries ask for what the state above may hold
+			addrArg = g.owner.String()
+			ref = strings.Repeat([]string{"ab", "zz"}[rapid.IntRange(0, 1).Draw(t, "storedRef")], 32)
+		}
 		func() {
 			defer func() { pan = notRapid(recover()) }()
 			switch q {
